@@ -17,7 +17,122 @@ type inferOpts struct {
 	TypeSchemas []struct {
 		Name   string          `json:"name"`
 		Schema json.RawMessage `json:"schema"`
+		// Share: pairs of JSON Pointers [a, b] into the entry (keyword names as in JSON: /properties/Lo, /anyOf/0/prefixItems/1,
+		// /items, /additionalProperties ...). After decoding, the position b is made to hold the SAME *Schema object as the
+		// position a: an entry assembled in Go code that uses one subschema value at several places (a DAG; JSON text can only
+		// describe trees). Applied in order. Default (absent): the entry is the tree its JSON text describes.
+		Share [][2]string `json:"share"`
 	} `json:"typeSchemas"`
+}
+
+// schemaChild finds, for one keyword of s, the addressable reflect.Value of the Schema field that holds its subschemas.
+func schemaChild(s *jsonschema.Schema, keyword string) (reflect.Value, bool) {
+	v := reflect.ValueOf(s).Elem()
+	t := v.Type()
+	for i := 0; i < t.NumField(); i++ {
+		f := t.Field(i)
+		name, _, _ := strings.Cut(f.Tag.Get("json"), ",")
+		if name == keyword || (keyword == "items" && f.Name == "Items") {
+			switch f.Type {
+			case schemaPtrT, schemaSliceT, schemaMapT:
+				return v.Field(i), true
+			}
+		}
+	}
+	return reflect.Value{}, false
+}
+
+// schemaSlot resolves a JSON Pointer below root to (get, set) for the *Schema stored at that position.
+func schemaSlot(root *jsonschema.Schema, ptr string) (get func() *jsonschema.Schema, set func(*jsonschema.Schema), err error) {
+	segs := strings.Split(strings.TrimPrefix(ptr, "/"), "/")
+	cur := root
+	for i := 0; i < len(segs); {
+		if cur == nil {
+			return nil, nil, fmt.Errorf("share: nothing at %q", ptr)
+		}
+		fv, ok := schemaChild(cur, segs[i])
+		if !ok {
+			return nil, nil, fmt.Errorf("share: no subschema keyword %q in %q", segs[i], ptr)
+		}
+		last := false
+		switch fv.Type() {
+		case schemaPtrT:
+			last = i+1 == len(segs)
+			get = func() *jsonschema.Schema { return fv.Interface().(*jsonschema.Schema) }
+			set = func(n *jsonschema.Schema) { fv.Set(reflect.ValueOf(n)) }
+			i++
+		case schemaSliceT:
+			sl := fv.Interface().([]*jsonschema.Schema)
+			var k int
+			if i+1 >= len(segs) {
+				return nil, nil, fmt.Errorf("share: %q stops at a list", ptr)
+			}
+			if _, e := fmt.Sscanf(segs[i+1], "%d", &k); e != nil || k < 0 || k >= len(sl) {
+				return nil, nil, fmt.Errorf("share: bad index in %q", ptr)
+			}
+			last = i+2 == len(segs)
+			get = func() *jsonschema.Schema { return sl[k] }
+			set = func(n *jsonschema.Schema) { sl[k] = n }
+			i += 2
+		case schemaMapT:
+			m := fv.Interface().(map[string]*jsonschema.Schema)
+			if i+1 >= len(segs) {
+				return nil, nil, fmt.Errorf("share: %q stops at a map", ptr)
+			}
+			key := strings.ReplaceAll(strings.ReplaceAll(segs[i+1], "~1", "/"), "~0", "~")
+			if _, ok := m[key]; !ok {
+				return nil, nil, fmt.Errorf("share: no key %q in %q", key, ptr)
+			}
+			last = i+2 == len(segs)
+			get = func() *jsonschema.Schema { return m[key] }
+			set = func(n *jsonschema.Schema) { m[key] = n }
+			i += 2
+		}
+		if last {
+			return get, set, nil
+		}
+		cur = get()
+	}
+	return nil, nil, fmt.Errorf("share: empty pointer")
+}
+
+// repeatedSchemas counts the *Schema objects that are reached more than once below s (0 for a tree).
+func repeatedSchemas(s *jsonschema.Schema) int {
+	count := map[*jsonschema.Schema]int{}
+	var walk func(s *jsonschema.Schema)
+	walk = func(s *jsonschema.Schema) {
+		if s == nil {
+			return
+		}
+		count[s]++
+		if count[s] > 1 {
+			return
+		}
+		v := reflect.ValueOf(s).Elem()
+		for i := 0; i < v.NumField(); i++ {
+			f := v.Field(i)
+			switch f.Type() {
+			case schemaPtrT:
+				walk(f.Interface().(*jsonschema.Schema))
+			case schemaSliceT:
+				for _, c := range f.Interface().([]*jsonschema.Schema) {
+					walk(c)
+				}
+			case schemaMapT:
+				for _, c := range f.Interface().(map[string]*jsonschema.Schema) {
+					walk(c)
+				}
+			}
+		}
+	}
+	walk(s)
+	n := 0
+	for _, c := range count {
+		if c > 1 {
+			n++
+		}
+	}
+	return n
 }
 
 type inferArgs struct {
@@ -205,6 +320,17 @@ func (a *inferArgs) forOptions() (*jsonschema.ForOptions, error) {
 		if err := json.Unmarshal(txt, s); err != nil {
 			return nil, err
 		}
+		for _, pair := range ts.Share {
+			get, _, err := schemaSlot(s, pair[0])
+			if err != nil {
+				return nil, err
+			}
+			_, set, err := schemaSlot(s, pair[1])
+			if err != nil {
+				return nil, err
+			}
+			set(get())
+		}
 		if o.TypeSchemas == nil {
 			o.TypeSchemas = map[reflect.Type]*jsonschema.Schema{}
 		}
@@ -332,6 +458,8 @@ func init() {
 			}
 		}
 		res["shared"] = shared
+		// tree-ness: no *Schema object twice inside ONE result (whatever the shape of the TypeSchemas entries)
+		res["dag"] = repeatedSchemas(s1)
 		_, rerr := s1.Resolve(nil)
 		res["resolves"] = rerr == nil
 		if rerr != nil {
@@ -465,8 +593,9 @@ func init() {
 			return res, nil
 		}
 		res["outcome"] = "ok"
-		tested, accepted := 0, 0
-		bad := []string{}
+		tested, accepted, nullTested := 0, 0, 0
+		bad, nullOK := []string{}, []string{}
+		typeNames := append(goFieldNames(t, map[reflect.Type]bool{}), jsonTagNames(t, map[reflect.Type]bool{})...)
 		for _, v := range sampleValues(t, a.Seed, a.N) {
 			b, err := json.Marshal(v.Interface())
 			if err != nil {
@@ -497,6 +626,33 @@ func init() {
 					}
 				}
 			}
+			// add a key: every name the type itself knows (Go field names and json tag names anywhere in it, embedded ones included),
+			// at every object of the document, with a value of each scalar JSON type
+			for _, m := range addKeys(inst, typeNames) {
+				mb, err := json.Marshal(m)
+				if err == nil {
+					docs = append(docs, mb)
+				}
+			}
+			// null in a non-nullable position (second form of the statement: such a document is REJECTED; encoding/json itself
+			// silently skips a null, so "accepted => decodes" cannot see it): positions whose Go type is a struct, an array or a
+			// boolean / number / string kind and is not reached through a pointer
+			for _, m := range nullAtValuePositions(t, inst) {
+				mb, err := json.Marshal(m)
+				if err != nil {
+					continue
+				}
+				var di any
+				dd := json.NewDecoder(bytes.NewReader(mb))
+				dd.UseNumber()
+				if dd.Decode(&di) != nil {
+					continue
+				}
+				nullTested++
+				if safeValidate(rs, di) == "valid" && len(nullOK) < 3 {
+					nullOK = append(nullOK, string(mb))
+				}
+			}
 			for _, doc := range docs {
 				var di any
 				dd := json.NewDecoder(bytes.NewReader(doc))
@@ -521,6 +677,8 @@ func init() {
 		res["tested"] = tested
 		res["accepted"] = accepted
 		res["undecodable"] = bad
+		res["null_tested"] = nullTested
+		res["null_accepted"] = nullOK
 		sb, _ := json.Marshal(s)
 		res["schema"] = string(sb)
 		return res, nil
@@ -690,6 +848,193 @@ func goFieldNames(t reflect.Type, seen map[reflect.Type]bool) []string {
 			out = append(out, f.Name)
 			out = append(out, goFieldNames(f.Type, seen)...)
 		}
+	}
+	return out
+}
+
+// jsonTagNames collects the names given by json tags of the struct fields that occur anywhere in t.
+func jsonTagNames(t reflect.Type, seen map[reflect.Type]bool) []string {
+	if seen[t] {
+		return nil
+	}
+	seen[t] = true
+	var out []string
+	switch t.Kind() {
+	case reflect.Pointer, reflect.Slice, reflect.Array, reflect.Map:
+		out = append(out, jsonTagNames(t.Elem(), seen)...)
+	case reflect.Struct:
+		for i := 0; i < t.NumField(); i++ {
+			f := t.Field(i)
+			if name, _, _ := strings.Cut(f.Tag.Get("json"), ","); name != "" && name != "-" {
+				out = append(out, name)
+			}
+			out = append(out, jsonTagNames(f.Type, seen)...)
+		}
+	}
+	return out
+}
+
+// addKeys: every object of the document extended, one key at a time, by a name of `names` it does not have, with a string, a
+// number, a boolean and null as value (at most 96 documents: the values rotate over the names pass by pass, so that a prefix
+// still holds every name at every object).
+func addKeys(v any, names []string) []any {
+	var out []any
+	uniq, done := []string{}, map[string]bool{}
+	for _, n := range names {
+		if !done[n] {
+			done[n] = true
+			uniq = append(uniq, n)
+		}
+	}
+	vals := []any{"s", 1.0, true, nil}
+	pass := 0
+	var walk func(cur any, rebuild func(any) any)
+	walk = func(cur any, rebuild func(any) any) {
+		switch c := cur.(type) {
+		case []any:
+			for i := range c {
+				i := i
+				walk(c[i], func(n any) any {
+					cp := append([]any{}, c...)
+					cp[i] = n
+					return rebuild(cp)
+				})
+			}
+		case map[string]any:
+			for j, name := range uniq {
+				if _, has := c[name]; has {
+					continue
+				}
+				cp := map[string]any{name: vals[(j+pass)%len(vals)]}
+				for kk, vv := range c {
+					cp[kk] = vv
+				}
+				out = append(out, rebuild(cp))
+			}
+			for k := range c {
+				k := k
+				walk(c[k], func(n any) any {
+					cp := map[string]any{}
+					for kk, vv := range c {
+						cp[kk] = vv
+					}
+					cp[k] = n
+					return rebuild(cp)
+				})
+			}
+		}
+	}
+	for pass = 0; pass < len(vals) && len(out) < 96; pass++ {
+		walk(v, func(n any) any { return n })
+	}
+	if len(out) > 96 {
+		out = out[:96]
+	}
+	return out
+}
+
+var (
+	jsonMarshalerT = reflect.TypeFor[json.Marshaler]()
+	textMarshalerT = reflect.TypeFor[interface{ MarshalText() ([]byte, error) }]()
+)
+
+// nullAtValuePositions: the documents obtained from the valid encoding v of a value of type t by writing null at ONE position
+// whose Go type cannot hold a null: a struct, an array, or a boolean / integer / float / string kind that is not behind a pointer
+// (encoding/json never writes null there). Pointer, slice, map and interface positions are nullable or outside the domain (nil maps)
+// and are only descended into; types with marshaling methods are opaque. A JSON key is followed into the struct field only when
+// exactly one visible field carries that JSON name.
+func nullAtValuePositions(t reflect.Type, v any) []any {
+	var out []any
+	var walk func(t reflect.Type, cur any, rebuild func(any) any)
+	walk = func(t reflect.Type, cur any, rebuild func(any) any) {
+		nullable := false
+		for t.Kind() == reflect.Pointer {
+			nullable = true
+			t = t.Elem()
+		}
+		if t.Implements(jsonMarshalerT) || reflect.PointerTo(t).Implements(jsonMarshalerT) || t.Implements(textMarshalerT) ||
+			reflect.PointerTo(t).Implements(textMarshalerT) || cur == nil {
+			return
+		}
+		switch t.Kind() {
+		case reflect.Bool, reflect.Int, reflect.Int8, reflect.Int16, reflect.Int32, reflect.Int64, reflect.Uint, reflect.Uint8, reflect.Uint16,
+			reflect.Uint32, reflect.Uint64, reflect.Uintptr, reflect.Float32, reflect.Float64, reflect.String:
+			if !nullable {
+				out = append(out, rebuild(nil))
+			}
+		case reflect.Slice, reflect.Array:
+			if t.Kind() == reflect.Array && !nullable {
+				out = append(out, rebuild(nil))
+			}
+			c, ok := cur.([]any)
+			if !ok {
+				return
+			}
+			for i := range c {
+				i := i
+				walk(t.Elem(), c[i], func(n any) any {
+					cp := append([]any{}, c...)
+					cp[i] = n
+					return rebuild(cp)
+				})
+			}
+		case reflect.Map:
+			c, ok := cur.(map[string]any)
+			if !ok {
+				return
+			}
+			for k := range c {
+				k := k
+				walk(t.Elem(), c[k], func(n any) any {
+					cp := map[string]any{}
+					for kk, vv := range c {
+						cp[kk] = vv
+					}
+					cp[k] = n
+					return rebuild(cp)
+				})
+			}
+		case reflect.Struct:
+			if !nullable {
+				out = append(out, rebuild(nil))
+			}
+			c, ok := cur.(map[string]any)
+			if !ok {
+				return
+			}
+			byName := map[string][]reflect.StructField{}
+			for _, f := range reflect.VisibleFields(t) {
+				if f.Anonymous || !f.IsExported() {
+					continue
+				}
+				name, _, _ := strings.Cut(f.Tag.Get("json"), ",")
+				if f.Tag.Get("json") == "-" {
+					continue
+				}
+				if name == "" {
+					name = f.Name
+				}
+				byName[name] = append(byName[name], f)
+			}
+			for k := range c {
+				k := k
+				if len(byName[k]) != 1 {
+					continue
+				}
+				walk(byName[k][0].Type, c[k], func(n any) any {
+					cp := map[string]any{}
+					for kk, vv := range c {
+						cp[kk] = vv
+					}
+					cp[k] = n
+					return rebuild(cp)
+				})
+			}
+		}
+	}
+	walk(t, v, func(n any) any { return n })
+	if len(out) > 200 {
+		out = out[:200]
 	}
 	return out
 }
